@@ -9,4 +9,9 @@ replace (
 	gopkg.in/sourcemap.v1 => github.com/go-sourcemap/sourcemap v1.0.5
 )
 
-require github.com/lianxiangcloud/linkchain v0.0.0-00010101000000-000000000000
+require (
+	github.com/golang/snappy v0.0.1
+	github.com/lianxiangcloud/linkchain v0.0.0-00010101000000-000000000000
+	github.com/pkg/errors v0.8.1
+	golang.org/x/crypto v0.0.0-20190701094942-4def268fd1a4
+)
